@@ -238,7 +238,9 @@ def run(ctx, case):
             exp = _lg(tr.ND) - kk * (_lg(S) - _lg(tr.SD))
             ctx.claim(abs(_lg(_scalar(N)) - exp) <= TOLE * (1 + abs(exp)), "slopes", (N, exp))
         out["N"] = _scalar(N)
-        return out if not ctx.sym else None
+        out["N2"] = _scalar(N2)
+        out["L"] = _scalar(L)
+        return out
 
     if kind == "monotone":
         wc_s, d = _curve(ctx, k1, k2, native=case.get("native", 0.5))
@@ -262,7 +264,7 @@ def run(ctx, case):
             else:
                 ok = _lg(Na) <= _lg(Nb) + TOLE
             ctx.claim(ok, "grow_with_probability", (Na, Nb))
-        return None
+        return {"N1": N1, "N2": N2, "Ns": Ns}
 
     if kind == "broadcast":
         wc_s, d = _curve(ctx, k1, k2)
@@ -315,5 +317,5 @@ def run(ctx, case):
         idn = acc.transform_to_failure_probability(0.5).to_pandas()
         for key in ("SD", "ND"):
             ctx.claim(_close_log(ctx, idn[key], d[key], 1e-12), "transform_native_identity", (key, idn[key]))
-        return None
+        return {"N10": N10, "N90": N90, "SD10": _scalar(t10.SD), "SD90": _scalar(t90.SD), "SDa": _scalar(a["SD"]), "NDa": _scalar(a["ND"])}
     raise RuntimeError("unknown kind")
